@@ -297,7 +297,7 @@ let do_load form trusted link_hex stream tail obs =
          if st = "ok" then add_fail fails "io_swallowed";
          if node <> "-" || raw <> "-" then add_fail fails "data_with_io_error"
        end else if not verifies then ()
-       else if not (hasher_ok p.lp_mhtype) || spec_dec = None then begin
+       else if not (hasher_ok p.lp_mhtype) || (spec_dec = None && f <> FLoadRaw) then begin
          if st = "ok" || node <> "-" || raw <> "-" then add_fail fails "data_without_setup"
        end else begin
          match verify hash l data with
